@@ -37,7 +37,16 @@ def gen_cases(seed, tier):
     depth = 2 if tier == "quick" else 3
     cases = []
     for i in range(n):
-        if i % 11 == 5:
+        if i % 40 == 17:
+            # a large polyhedron away from the origin with a user-set boundary tolerance (documented argument `tol`):
+            # float32 surface points are ~1e-4 off the surface, the tolerance is 1e-2
+            S = float(rng.choice([100.0, 300.0]))
+            sp = gen_geo.polyhedron(rng, rng.uniform(-3, 3, 3) * S, S)
+            sp["tol"] = 1e-2
+            kk_ = int(rng.choice([0, 0, 2]))
+            dom = {"spec": sp, "rows": gen_geo.param_rows(rng, kk_), "k": kk_,
+                   "info": {"kind": "prim", "dim": 3, "dep": False, "relations": ["user_tol"], "desc": "H~tol"}}
+        elif i % 11 == 5:
             dom = gen_geo.flip_parallelogram(rng, kinds=("parallelogram", "triangle"))
         else:
             dom = gen_geo.gen_domain(rng, max_depth=int(rng.integers(1, depth + 1)))
@@ -91,6 +100,29 @@ def _answer(D, P, Q, res, mech, what):
             return None
         res["counters"]["non_bool_dtype_answers"] = res["counters"].get("non_bool_dtype_answers", 0) + 1
     return out.reshape(-1).bool().numpy()
+
+
+def _layouts(Dq, P, Q, base, rows, rng, res, mech, desc):
+    import torch
+    from torchphysics.problem.spaces import Points
+    extra = Points.from_coordinates({"q0": torch.tensor(rng.uniform(-1, 1, (len(P), 1)).astype(np.float32))})
+    lay = [("extra_front", extra.join(P), Q), ("extra_behind", P.join(extra), Q)]
+    if len(Q):
+        lay += [("params_front", Q.join(P), Points.empty())]
+    for lname, lp, lq in lay:
+        try:
+            a = Dq._contains(lp, lq).reshape(-1).bool().numpy()
+        except Exception as e:
+            res["viol"].append(viol("exception", "%s._contains with the query stored as %s (%s) raised %s in %s: %s" % (type(Dq).__name__, lname,
+                                    list(lp.space.keys()), type(e).__name__, exc_site(e), str(e)[:200]), exc=type(e).__name__, site=exc_site(e),
+                                    layout=lname, **mech))
+            continue
+        res["counters"]["layout_queries"] = res["counters"].get("layout_queries", 0) + 1
+        res["judged"] += 1
+        if a.shape != base.shape or (a != base)[rows].any():
+            res["viol"].append(viol("answer_depends_on_layout", "%s: %d of %d membership answers change when the query points are stored as %s "
+                                    "(space %s)" % (desc, int((a != base)[rows].sum()) if a.shape == base.shape else -1, int(rows.sum()), lname,
+                                                    list(lp.space.keys())), layout=lname, **mech))
 
 
 def run_case(case):
@@ -228,6 +260,10 @@ def run_case(case):
             if diff:
                 res["viol"].append(viol("answer_depends_on_batch", "%s of %s: %d rows get a different membership answer when queried alone / in a "
                                         "small batch than inside the full batch" % (name, info["desc"], diff), target=name, **mech0))
+    # ---- the answer must not depend on how the columns of the query are stored: another variable (product samplers) or
+    #      the parameters in front of / behind the domain coordinates (compared outside the tolerance band)
+    if ans is not None:
+        _layouts(D, P, Q, ans, far, rng, res, dict(mech0, target="interior"), info["desc"])
     # ---- boundary membership
     if Db is not None and hasattr(Db, "_contains") and bsamples is not None and len(bsamples[0]):
         mech = dict(mech0, target="boundary")
@@ -271,6 +307,7 @@ def run_case(case):
             if ans is None:
                 continue
             rej = okb & ~amb & ~ans
+            _layouts(Db, Po, Qo, ans, okb & ~amb, rng, res, dict(mech, sampler=kind), "boundary of " + info["desc"])
             # the same samples queried one at a time (the answer for a row must not depend on the rest of the batch)
             good = np.where(okb & ~amb & ans)[0]
             if len(good):
